@@ -29,6 +29,10 @@ pub struct Cfg {
     /// object bytes that do not compress (the transfer length then follows the object length)
     #[serde(default)]
     pub incompressible: bool,
+    /// session default OTI of the object's own FEC scheme and E but another block length and parity
+    /// count (the FDT then carries FEC attributes at instance level AND, different, at file level)
+    #[serde(default)]
+    pub sess_like: bool,
 }
 
 impl Cfg {
@@ -43,7 +47,7 @@ impl Cfg {
         if self.carousel {
             o.carousel = Some(Carousel::Delay(500));
         }
-        let mut s = SessSpec::basic(OtiSpec::new(Scheme::NoCode, 1424, 64, 0, true));
+        let mut s = SessSpec::basic(if self.sess_like { OtiSpec::new(self.scheme, self.e, self.b * 2, if self.scheme == Scheme::NoCode { 0 } else { self.parity + 1 }, true) } else { OtiSpec::new(Scheme::NoCode, 1424, 64, 0, true) });
         s.interleave = self.interleave;
         RecSpec { sess: s, objs: vec![o], polls_ms: if self.carousel { vec![0, 2000] } else { vec![0] } }
     }
@@ -230,7 +234,7 @@ fn run_corrupt_expect(p: &Prepared, seq: &[usize], c: &Corrupt, g: &mut G) -> Op
 }
 
 fn configs(thorough: bool) -> Vec<Cfg> {
-    let c = |scheme, e, b, parity, len, cenc, inband_fti, count, carousel, interleave| Cfg { scheme, e, b, parity, len, cenc, inband_fti, count, carousel, interleave, inband_cenc: inband_fti, md5: true, incompressible: false };
+    let c = |scheme, e, b, parity, len, cenc, inband_fti, count, carousel, interleave| Cfg { scheme, e, b, parity, len, cenc, inband_fti, count, carousel, interleave, inband_cenc: inband_fti, md5: true, incompressible: false, sess_like: false };
     let mut v = vec![
         c(Scheme::NoCode, 4, 2, 0, 11, 0, true, 1, false, 1),
         c(Scheme::NoCode, 4, 2, 0, 11, 0, false, 1, false, 1),
@@ -266,6 +270,18 @@ fn configs(thorough: bool) -> Vec<Cfg> {
                     x.md5 = md5;
                     v.push(x);
                 }
+            }
+        }
+    }
+    // the session's default OTI resembles the object's (same scheme and E, other B / parity): a receiver
+    // that mixes the instance-level and the file-level FEC attributes partitions the object wrongly
+    for (scheme, e, b, parity, len) in [(Scheme::NoCode, 4u16, 2u16, 0u16, 13usize), (Scheme::Rs28, 4, 2, 1, 15), (Scheme::Rs28, 4, 2, 2, 16), (Scheme::Rs28Us, 4, 2, 1, 15), (Scheme::Raptor, 2, 4, 1, 16), (Scheme::RaptorQ, 4, 2, 1, 15)] {
+        for inband_fti in [false, true] {
+            for md5 in [false, true] {
+                let mut x = c(scheme, e, b, parity, len, 0, inband_fti, 1, false, 1);
+                x.md5 = md5;
+                x.sess_like = true;
+                v.push(x);
             }
         }
     }
